@@ -55,3 +55,15 @@ CHECKS["C16"] = dict(
     assumptions=["sysfs model: node ids contiguous from 0, an offline CPU keeps its nodeN link but has no topology directory, node cpulist lists online CPUs only"],
     stages=[dict(pkg="./pkg/sysfs", run="TestVerifC16Discovery", shards=16)],
 )
+
+CHECKS["C08"] = dict(
+    level="exploration", engine="inputx",
+    technique="exhaustive enumeration of (topology, every subset of online CPUs, every count, priority, flag set) on the real allocator against the stated contract; determinism across fresh allocators and map-iteration orders",
+    rule="per generated topology: every subset of online CPUs as candidate set x every count 0..|set|+1 x 4 priorities x flag sets, for AllocateCpus and ReleaseCpus; "
+         "each input is run on 4-5 allocators (sorted, fresh, reverse and rotated map order) and all outcomes must agree; "
+         "non-trivial = inputs with 0 < cnt < |set| (the allocator actually has to choose)",
+    bound=dict(quick="13 topologies of up to 8 CPUs, 6 flag sets", thorough="18 topologies of up to 12 CPUs, all 16 flag combinations + default"),
+    assumptions=["map iteration order is controlled through the vgen map-range rewrite (sorted / reverse / rotate policies applied to all sites), not all per-site permutations",
+                 "ReleaseCpus semantics as used by its callers: on return *from holds the n released CPUs and the result the CPUs kept"],
+    stages=[dict(pkg="./pkg/cpuallocator", run="TestVerifC08", shards=16)],
+)
